@@ -1,6 +1,7 @@
 package spoksim
 
 import (
+	"bytes"
 	"encoding/json"
 	"fmt"
 	"os"
@@ -1185,6 +1186,34 @@ func (hashsched) RaceExec(w *World, c *HashCase, prop string, reps int) *Result 
 				digests[d] = true
 			}
 		}
+	}
+	// a large file (more than 1 MiB) listed several times next to the others, hashed, rewritten with another size and
+	// hashed again in the same process: whatever a hasher remembers between calls is exercised by several workers
+	// at once (races show in the detector, a fatal map error kills the process: both are reported by the driver)
+	if bad == 0 && len(abs)%3 == 0 {
+		big := filepath.Join(w.Proj, "large.bin")
+		var seen []string
+		runtime.GOMAXPROCS(16)
+		for round := 0; round < 3; round++ {
+			must(os.WriteFile(big, bytes.Repeat([]byte{byte('a' + round)}, 1<<20+round), 0o644))
+			files := append([]string{big, big, big, big}, abs...)
+			files = append(files, big, big)
+			d, err, timedOut, leaked := w.hashReal(files, nil)
+			res.Ops++
+			if timedOut || leaked > 0 || err != nil {
+				res.violate("C18", "readable-implies-digest", "race-mode:large", "real scheduler, large file listed six times: timedOut=%v leaked=%d err=%v", timedOut, leaked, err)
+				return res
+			}
+			for _, prev := range seen {
+				if prev == d {
+					res.violate("C04", "different-files-different-digest", "race-mode:large", "real scheduler: a 1 MiB file was rewritten with different content and size between two Hash calls of one process, the digest stayed %.12s", d)
+					return res
+				}
+			}
+			seen = append(seen, d)
+		}
+		os.Remove(big)
+		res.count("probe:large_file_rewritten_between_calls")
 	}
 	if len(digests) > 1 {
 		res.violate("C04", "same-files-same-digest", "race-mode", "real scheduler: the same file multiset hashed to %d different digests across GOMAXPROCS 1/2/4/16, permutations and %d repetitions", len(digests), reps)
